@@ -75,6 +75,8 @@ func (b *barrier) wait() {
 func c15Executor(b *barrier, mw string) *kmipserver.BatchExecutor {
 	exec := kmipserver.NewBatchExecutor()
 	var calls sync.Map // item identifier -> *int32: invocations of the handler for that item
+	var backend *kmipserver.BatchExecutor
+	var backendOnce sync.Once
 	switch mw {
 	case "pass":
 		exec.BatchItemUse(func(next kmipserver.BatchItemNext, ctx context.Context, bi *kmip.RequestBatchItem) (*kmip.ResponseBatchItem, error) {
@@ -112,6 +114,22 @@ func c15Executor(b *barrier, mw string) *kmipserver.BatchExecutor {
 				return nil, err
 			}
 			obs = id
+		case "nested":
+			// the handler forwards a request of its own to a back-end executor, passing on the context it received: that
+			// request starts with an empty placeholder, and nothing it stores is visible to the outer request
+			backendOnce.Do(func() { backend = c15Executor(nil, "") })
+			inner := kmip.NewRequestMessage(kmip.V1_4, &payloads.ActivateRequestPayload{UniqueIdentifier: "n0#read"},
+				&payloads.ActivateRequestPayload{UniqueIdentifier: "in-" + val + "#set"}, &payloads.ActivateRequestPayload{UniqueIdentifier: "n2#read"})
+			resp := backend.HandleRequest(ctx, &inner)
+			if resp == nil || len(resp.BatchItem) != 3 {
+				return nil, errors.New("nested request: wrong response shape")
+			}
+			for k, want := range map[int]string{0: "obs=", 2: "obs=in-" + val} {
+				pl, _ := resp.BatchItem[k].ResponsePayload.(*payloads.ActivateResponsePayload)
+				if pl == nil || pl.UniqueIdentifier != want {
+					return nil, fmt.Errorf("nested request: item %d observed %+v, want %q (a request message starts with an empty placeholder of its own)", k, pl, want)
+				}
+			}
 		case "readexplicit":
 			// an item that names its object explicitly: the accessor must hand that identifier back and leave the placeholder alone
 			want := "explicit-" + val
@@ -178,7 +196,7 @@ func c15Model(conn, reqIdx int, actions []string) (accept [][]string) {
 		case "set":
 			accept = append(accept, obs)
 			ph, maybe = val, false
-		case "read", "sync", "readexplicit":
+		case "read", "sync", "readexplicit", "nested":
 			accept = append(accept, obs)
 		case "readorid":
 			if ph == "" && !maybe {
@@ -408,7 +426,7 @@ func c15Run(t *testing.T, c c15Case) (sig string, err error) {
 
 func TestC15Placeholder(t *testing.T) {
 	const name = "TestC15Placeholder"
-	rec := evid.New("C15", name, "1..4 connections (through a real Server over an in-memory listener in a synctest bubble) or 2..6 goroutines calling HandleRequest directly, each issuing 0..2 requests that are rejected at message level (unsupported version, batch count mismatch, Undo) followed by 1..4 requests of 1..6 placeholder actions (set / read / read-or-id / read with an explicit identifier / clear / fail / set-then-fail / fail on the first run only, each item optionally carrying a non-critical message extension); the executor has no batch item middleware, a pass-through one, one that turns a handler error into a successful item, or one that runs a failed item once more; "+
+	rec := evid.New("C15", name, "1..4 connections (through a real Server over an in-memory listener in a synctest bubble) or 2..6 goroutines calling HandleRequest directly, each issuing 0..2 requests that are rejected at message level (unsupported version, batch count mismatch, Undo) followed by 1..4 requests of 1..6 placeholder actions (set / read / read-or-id / read with an explicit identifier / forward a nested request to a back-end executor / clear / fail / set-then-fail / fail on the first run only, each item optionally carrying a non-critical message extension); the executor has no batch item middleware, a pass-through one, one that turns a handler error into a successful item, or one that runs a failed item once more; "+
 		"rendezvous items inside the first request of every connection force the requests to overlap in time at chosen items; values are unique per request; oracle: per-request placeholder model (empty at start, set visible to later items, never a foreign value); "+
 		"non-trivial = set followed by read in a request that overlaps another one, or a second request on a connection after a set; distinct by case").Attach(t)
 	if rp := evid.LoadReplay(name); rp != nil {
@@ -421,7 +439,7 @@ func TestC15Placeholder(t *testing.T) {
 		}
 		return
 	}
-	actions := []string{"set", "set", "read", "read", "readorid", "readexplicit", "clear", "fail", "setfail", "failonce"}
+	actions := []string{"set", "set", "read", "read", "readorid", "readexplicit", "nested", "clear", "fail", "setfail", "failonce"}
 	rapid.Check(t, func(rt *rapid.T) {
 		c := c15Case{Direct: rapid.Bool().Draw(rt, "direct"), ItemMiddleware: rapid.SampledFrom([]string{"", "", "pass", "absorb", "retry"}).Draw(rt, "item-middleware")}
 		nconn := rapid.IntRange(1, 4).Draw(rt, "connections")
